@@ -150,6 +150,8 @@ def expand(crate_json):
         if not body:
             continue
         total += _desugar_for_each(f, closures)
+        total += _desugar_option_map(f, closures)
+        total += _desugar_transpose(f)
         total += _expand_fn(f, helpers, 0, {f["path"]}, closures)
     if total:
         _drop_absorbed(crate_json, helpers, closures)
@@ -448,6 +450,147 @@ def _desugar_for_each(f, closures):
         B.append({"stmts": [], "term": {"sp": sp, "k": "unreachable"}})
         B.append({"stmts": [{"lhs": copy.deepcopy(dest), "rv": {"k": "use", "op": {"k": {"ty": "()", "zst": True, "dbg": "()"}}}, "sp": sp}],
                   "term": {"sp": sp, "k": "goto", "t": cont} if cont is not None else {"sp": sp, "k": "unreachable"}})
+        n += 1
+    return n
+
+
+def _opt_ty(inner):
+    return "std::option::Option<%s>" % inner
+
+
+def _desugar_option_map(f, closures):
+    """`opt.map(|x| body)` with a closure that the pinned tree does not have is the match
+    `match opt { None => None, Some(x) => Some(body) }`: the call is replaced by that match (a
+    switch on the discriminant, a direct call of the closure that the expansion below copies in,
+    an Option aggregate on each arm). Only closures outside the baseline are touched, so nothing
+    changes on the pinned tree; a refactoring that folds an `if let Some(x) = opt { .. } else { .. }`
+    into a combinator is then read like the `if let` it came from."""
+    body = f["body"]
+    base = baseline()
+    n = 0
+    for bi in range(len(body["blocks"])):
+        bb = body["blocks"][bi]
+        term = bb["term"]
+        if term.get("k") != "call" or len(term.get("args") or []) != 2:
+            continue
+        fn = ((term.get("func") or {}).get("k") or {}).get("fn") or {}
+        if fn.get("path") != "std::option::Option::<T>::map":
+            continue
+        agg = _find_closure_agg(body, term["args"][1], None)
+        cpl = _op_place(term["args"][1])
+        opl = _op_place(term["args"][0])
+        if agg is None or cpl is None or cpl["p"] or opl is None or opl["p"]:
+            continue
+        cpath = agg[2]["rv"]["closure"]
+        c = closures.get(cpath)
+        if c is None or cpath in base or c["body"]["arg_count"] != 2 or cpath == f["path"]:
+            continue
+        targs = fn.get("args") or []
+        if len(targs) < 2:
+            continue
+        item_ty, res_ty = c["body"]["locals"][2]["ty"], targs[1]
+        clos_ty = body["locals"][cpl["l"]]["ty"]
+        sp = term.get("sp")
+        L = body["locals"]
+
+        def new(ty, mut=False):
+            L.append({"ty": ty, "mut": True} if mut else {"ty": ty})
+            return len(L) - 1
+        d = new("isize")
+        tup = new("(%s,)" % item_ty)
+        r = new(res_ty)
+        B = body["blocks"]
+        N, S, W, X = len(B), len(B) + 1, len(B) + 2, len(B) + 3
+        cont = term.get("t")
+        dest = term["dest"]
+        oty = body["locals"][opl["l"]]["ty"]
+        bb["stmts"].append({"lhs": {"l": d, "p": []}, "rv": {"k": "discr", "place": {"l": opl["l"], "p": []}, "ty": oty}, "sp": sp})
+        bb["term"] = {"sp": sp, "k": "switch", "op": {"m": {"l": d, "p": []}}, "ty": "isize", "vals": [0, 1],
+                      "targets": [N, S], "otherwise": X, "desugared": "Option::map"}
+        jump = {"sp": sp, "k": "goto", "t": cont} if cont is not None else {"sp": sp, "k": "unreachable"}
+        B.append({"stmts": [{"lhs": copy.deepcopy(dest), "rv": {"k": "agg", "agg": "adt", "adt": "std::option::Option",
+                                                                "targs": [res_ty], "variant": "None", "vi": 0, "fields": [], "ops": []},
+                             "sp": sp}], "term": copy.deepcopy(jump)})
+        item = {"m": {"l": opl["l"], "p": [{"dc": 1, "n": "Some"},
+                                           {"f": 0, "o": "std::option::Option", "v": "Some", "n": "0", "t": item_ty}]}}
+        B.append({"stmts": [{"lhs": {"l": tup, "p": []}, "rv": {"k": "agg", "agg": "tuple", "ops": [item]}, "sp": sp}],
+                  "term": {"sp": sp, "k": "call",
+                           "func": {"k": {"ty": "closure call", "fn": {"path": "std::ops::FnOnce::call_once", "krate": "core",
+                                                                       "args": [clos_ty, "(%s,)" % item_ty], "name": "call_once",
+                                                                       "trait": "std::ops::FnOnce", "self_ty": clos_ty,
+                                                                       "resolved": {"path": cpath, "krate": f.get("krate", ""), "args": [],
+                                                                                    "kind": "", "def": "Closure"}}}},
+                           "args": [{"m": {"l": cpl["l"], "p": []}}, {"m": {"l": tup, "p": []}}],
+                           "arg_tys": [clos_ty, "(%s,)" % item_ty],
+                           "dest": {"l": r, "p": []}, "dest_ty": res_ty, "t": W, "fn_sp": sp}})
+        B.append({"stmts": [{"lhs": copy.deepcopy(dest), "rv": {"k": "agg", "agg": "adt", "adt": "std::option::Option",
+                                                                "targs": [res_ty], "variant": "Some", "vi": 1, "fields": ["0"],
+                                                                "ops": [{"m": {"l": r, "p": []}}]}, "sp": sp}],
+                  "term": copy.deepcopy(jump)})
+        B.append({"stmts": [], "term": {"sp": sp, "k": "unreachable"}})
+        n += 1
+    return n
+
+
+def _desugar_transpose(f):
+    """`opt.transpose()` on an `Option<Result<T, E>>` written out:
+    None => Ok(None), Some(Ok(v)) => Ok(Some(v)), Some(Err(e)) => Err(e). (The pinned tree has no
+    `transpose`.)"""
+    body = f["body"]
+    n = 0
+    for bi in range(len(body["blocks"])):
+        bb = body["blocks"][bi]
+        term = bb["term"]
+        if term.get("k") != "call" or len(term.get("args") or []) != 1:
+            continue
+        fn = ((term.get("func") or {}).get("k") or {}).get("fn") or {}
+        if fn.get("path") != "std::option::Option::<std::result::Result<T, E>>::transpose":
+            continue
+        opl = _op_place(term["args"][0])
+        targs = fn.get("args") or []
+        if opl is None or opl["p"] or len(targs) != 2:
+            continue
+        T, Er = targs
+        sp = term.get("sp")
+        L = body["locals"]
+
+        def new(ty):
+            L.append({"ty": ty})
+            return len(L) - 1
+        oty = body["locals"][opl["l"]]["ty"]
+        rty = "std::result::Result<%s, %s>" % (T, Er)
+        d1, d2, in1, in2 = new("isize"), new("isize"), new(_opt_ty(T)), new(_opt_ty(T))
+        B = body["blocks"]
+        TN, TS, SO, SE, X = len(B), len(B) + 1, len(B) + 2, len(B) + 3, len(B) + 4
+        cont = term.get("t")
+        dest = term["dest"]
+        jump = {"sp": sp, "k": "goto", "t": cont} if cont is not None else {"sp": sp, "k": "unreachable"}
+        some0 = [{"dc": 1, "n": "Some"}, {"f": 0, "o": "std::option::Option", "v": "Some", "n": "0", "t": rty}]
+
+        def res(variant, vi, op):
+            return {"k": "agg", "agg": "adt", "adt": "std::result::Result", "targs": [_opt_ty(T), Er], "variant": variant,
+                    "vi": vi, "fields": ["0"], "ops": [op]}
+        bb["stmts"].append({"lhs": {"l": d1, "p": []}, "rv": {"k": "discr", "place": {"l": opl["l"], "p": []}, "ty": oty}, "sp": sp})
+        bb["term"] = {"sp": sp, "k": "switch", "op": {"m": {"l": d1, "p": []}}, "ty": "isize", "vals": [0, 1],
+                      "targets": [TN, TS], "otherwise": X, "desugared": "Option::transpose"}
+        B.append({"stmts": [{"lhs": {"l": in1, "p": []}, "rv": {"k": "agg", "agg": "adt", "adt": "std::option::Option", "targs": [T],
+                                                                "variant": "None", "vi": 0, "fields": [], "ops": []}, "sp": sp},
+                            {"lhs": copy.deepcopy(dest), "rv": res("Ok", 0, {"m": {"l": in1, "p": []}}), "sp": sp}],
+                  "term": copy.deepcopy(jump)})
+        B.append({"stmts": [{"lhs": {"l": d2, "p": []}, "rv": {"k": "discr", "place": {"l": opl["l"], "p": copy.deepcopy(some0)}, "ty": rty},
+                             "sp": sp}],
+                  "term": {"sp": sp, "k": "switch", "op": {"m": {"l": d2, "p": []}}, "ty": "isize", "vals": [0, 1],
+                           "targets": [SO, SE], "otherwise": X}})
+        okp = copy.deepcopy(some0) + [{"dc": 0, "n": "Ok"}, {"f": 0, "o": "std::result::Result", "v": "Ok", "n": "0", "t": T}]
+        erp = copy.deepcopy(some0) + [{"dc": 1, "n": "Err"}, {"f": 0, "o": "std::result::Result", "v": "Err", "n": "0", "t": Er}]
+        B.append({"stmts": [{"lhs": {"l": in2, "p": []}, "rv": {"k": "agg", "agg": "adt", "adt": "std::option::Option", "targs": [T],
+                                                                "variant": "Some", "vi": 1, "fields": ["0"],
+                                                                "ops": [{"m": {"l": opl["l"], "p": okp}}]}, "sp": sp},
+                            {"lhs": copy.deepcopy(dest), "rv": res("Ok", 0, {"m": {"l": in2, "p": []}}), "sp": sp}],
+                  "term": copy.deepcopy(jump)})
+        B.append({"stmts": [{"lhs": copy.deepcopy(dest), "rv": res("Err", 1, {"m": {"l": opl["l"], "p": erp}}), "sp": sp}],
+                  "term": copy.deepcopy(jump)})
+        B.append({"stmts": [], "term": {"sp": sp, "k": "unreachable"}})
         n += 1
     return n
 
